@@ -28,7 +28,7 @@ def _has_bad_constructs(func: ast.FunctionDef) -> bool:
         if node is func:
             continue
         if isinstance(node, (ast.Yield, ast.YieldFrom, ast.Await, ast.FunctionDef, ast.AsyncFunctionDef,
-                             ast.ClassDef, ast.Global, ast.Nonlocal, ast.Lambda)):
+                             ast.ClassDef, ast.Global, ast.Nonlocal)):
             return True
     return sum(1 for _ in ast.walk(func) if isinstance(_, ast.stmt)) > MAX_HELPER_STATEMENTS
 
@@ -82,7 +82,15 @@ def _convert_returns(stmts: List[ast.stmt], make_result) -> List[ast.stmt]:
 
 class _Rename(ast.NodeTransformer):
     def __init__(self, names: Set[str], suffix: str):
-        self.names, self.suffix = names, suffix
+        self.names, self.suffix = set(names), suffix
+
+    def visit_Lambda(self, node):
+        bound = {a.arg for a in node.args.posonlyargs + node.args.args + node.args.kwonlyargs}
+        saved = self.names
+        self.names = self.names - bound
+        node = self.generic_visit(node)
+        self.names = saved
+        return node
 
     def visit_Name(self, node):
         if node.id in self.names:
